@@ -62,7 +62,10 @@ static void spgemm_case(const Pattern &pa, const Pattern &pb, int T) { hx::run_c
     hx_omp_threads=1; hx_omp_tid=0; M C1; amgcl::backend::spgemm_saad(*Am,*Bm,C1,true); M R1; amgcl::backend::spgemm_rmerge(*Am,*Bm,R1);
     bool same=true; for (int t=0;t<T;++t) { hx_omp_threads=T; hx_omp_tid=t; M C2; amgcl::backend::spgemm_saad(*Am,*Bm,C2,true); M R2; amgcl::backend::spgemm_rmerge(*Am,*Bm,R2);
         for (const std::pair<const M*,const M*> pr : {std::make_pair(&C1,&C2),std::make_pair(&R1,&R2)}) { same=same&&pr.first->nrows==pr.second->nrows; for (size_t i=0;i<pr.first->nrows&&same;++i) { same=same&&pr.first->ptr[i+1]==pr.second->ptr[i+1]; for (ptrdiff_t k=pr.first->ptr[i];k<pr.first->ptr[i+1]&&same;++k) same=same&&pr.first->col[k]==pr.second->col[k]&&hx::same_handle(pr.first->val[k],pr.second->val[k]); } } }
-    hx_omp_threads=1; hx_omp_tid=0; hx::require("SpGEMM (both algorithms): the result computed with per-thread work arrays under T threads is bitwise the single-thread result", same); }); }
+    hx_omp_threads=1; hx_omp_tid=0; hx::require("SpGEMM (both algorithms): the result computed with per-thread work arrays under T threads is bitwise the single-thread result", same);
+    // product() switches from the marker algorithm to the row-merge algorithm above 16 threads: both must give the same matrix (entry values over the reals; the column order inside a row may differ)
+    { std::vector<scalar> l, r; std::vector<std::vector<scalar>> d1(C1.nrows,std::vector<scalar>(C1.ncols,scalar(0))), d2=d1; for (size_t i=0;i<C1.nrows;++i) { for (ptrdiff_t k=C1.ptr[i];k<C1.ptr[i+1];++k) d1[i][C1.col[k]]=d1[i][C1.col[k]]+C1.val[k]; for (ptrdiff_t k=R1.ptr[i];k<R1.ptr[i+1];++k) d2[i][R1.col[k]]=d2[i][R1.col[k]]+R1.val[k]; }
+      for (size_t i=0;i<C1.nrows;++i) for (size_t j=0;j<C1.ncols;++j) { l.push_back(d1[i][j]); r.push_back(d2[i][j]); } hx::require("both SpGEMM algorithms return the same shape", R1.nrows==C1.nrows && R1.ncols==C1.ncols); hx::prove_eq_vec("the row-merge product (more than 16 threads) equals the marker-based product (up to 16 threads)", r, l); } }); }
 
 int main(int argc, char **argv) {
     hx::parse_args(argc,argv); bool T=hx::thorough(); hx::Rng rng(hx::args().seed);
